@@ -36,6 +36,20 @@ func (p *Prog) lowerTop(fi *FuncInfo, ct *Contract) (fv *FuncIVL, err error) {
 	}
 	fr := &frame{fi: fi, objVar: map[types.Object]string{}, contract: ct}
 	l.fr = fr
+	if fi.Body != nil {
+		ast.Inspect(fi.Body, func(n ast.Node) bool {
+			if ce, ok := n.(*ast.CallExpr); ok && len(ce.Args) == 1 {
+				if id, ok := ce.Fun.(*ast.Ident); ok && id.Name == "len" {
+					if t := fi.Pkg.TypesInfo.TypeOf(ce.Args[0]); t != nil {
+						if _, isChan := t.Underlying().(*types.Chan); isChan {
+							l.chanLenTracked = true
+						}
+					}
+				}
+			}
+			return true
+		})
+	}
 	f.Entry = f.newBlock("entry")
 	l.cur = f.Entry
 	f.declare("$alloc", "Int")
